@@ -156,6 +156,39 @@ fn run(sh: &mut Shard) {
             }
         }
     }
+    // (a') one long history: thousands of programs that each bring fresh names, numbers and strings (whatever
+    // table, cache or counter a change might keep between evaluations gets filled and wrapped), the batch
+    // re-evaluated at several points of it
+    if sh.shard == 0 {
+        sh.mine();
+        sh.begin(&|| "long history: 6000 programs with fresh names and constants, the batch re-evaluated every 500".to_string());
+        sh.count(&format!("long-history:{profile}"));
+        'long: for k in 0..6000u64 {
+            let text = format!(
+                "stel naam{k} = {k}; stel tekst{k} = \"s{k}\"; functie f{k}(p{k}) {{ p{k} + {k}.5 }}; [naam{k}, tekst{k}, f{k}(0.25)]"
+            );
+            let o = sched::solo(&text, 100_000);
+            sh.count("transitions");
+            let want = format!("value [{k},\"s{k}\",{}] | output \"\"", crate::refint::render_float(0.25 + k as f64 + 0.5));
+            if render(&o) != want {
+                sh.violation("history", json!({"profile": profile, "long_history_position": k, "program": text}), format!("program {k} of the long history gave {}, expected {want}", render(&o)));
+                break 'long;
+            }
+            if k % 500 == 499 {
+                for (i, b) in BATCH.iter().enumerate() {
+                    let o = sched::solo(b, 1_000_000);
+                    if render(&o) != solos[i] {
+                        sh.violation(
+                            "history",
+                            json!({"profile": profile, "long_history_position": k, "program": b}),
+                            format!("after {} earlier evaluations {:?} gave {} but alone in a fresh process it gives {}", k + 1, b, render(&o), solos[i]),
+                        );
+                        break 'long;
+                    }
+                }
+            }
+        }
+    }
     // (c) configurations: the (program, outcome) table of this build; compared across builds by the parent
     for prog in table_programs(tier, sh.cfg.seed) {
         if !sh.mine() {
